@@ -347,7 +347,14 @@ func StructTypeField(tpe ast.BaseTerm, field ast.Constant) (ast.BaseTerm, error)
 				return arg.(ast.ApplyFn).Args[1], nil
 			}
 			i++
+			if i >= len(elems) {
+				return nil, fmt.Errorf("no type for field %v in %v", field, tpe)
+			}
 			return elems[i], nil
+		}
+		if !IsOptional(arg) {
+			// Skip the type of this required field: it is not a field name.
+			i++
 		}
 	}
 	return nil, fmt.Errorf("no field %v in %v", field, tpe)
